@@ -108,14 +108,39 @@ def dispatch2 (op : String) (args : List SExp) : Option String :=
      | some v =>
         let (vs, st) := IterSt.collect (valueSize v + 1) v.iter
         let after := (st.next.1.isSome) || (st.next.2.next.1.isSome)
-        "[" ++ " ".intercalate (vs.map showValue) ++ "]" ++ (if after then " resumed" else " end")
+        -- model ## specification of traversal (C19): set elements in order, collection member values in
+        -- member-name order, any other value exactly once; then it ends
+        let specVs : List Value := match v with
+          | .array xs => xs
+          | .coll ms => ms.map (·.2)
+          | w => [w]
+        "[" ++ " ".intercalate (vs.map showValue) ++ "]" ++ (if after then " resumed" else " end") ++
+          " ## [" ++ " ".intercalate (specVs.map showValue) ++ "] end"
      | none => "(bad-arg)")
   | "ready", [m] =>
     some (match readMsg m with
      | some (h, gs) =>
-        (match isPrinterReady h gs with
+        -- model ## the property's own wording (C17), written with the RFC names and the ten blocking words
+        let blocking : List Bytes := [Spec.N.media_jam, Spec.N.toner_empty, Spec.N.spool_area_full, Spec.N.cover_open, Spec.N.door_open,
+          Spec.N.input_tray_missing, Spec.N.output_tray_missing, Spec.N.marker_supply_empty, Spec.N.paused, Spec.N.shutdown]
+        let firstPrinter := (gs.filter fun g => g.tag == .PrinterAttributes).head?
+        let attr (n : Bytes) : Option Value := firstPrinter.bind fun g => (g.attrs.find? fun p => p.1 == n).map (·.2)
+        let stopped := match attr Spec.N.printer_state with
+          | some (.int .enum v) => v == 5
+          | _ => false
+        let kws : List Bytes := match attr Spec.N.printer_state_reasons with
+          | some (.str .keyword s) => [s]
+          | some (.array vs) => vs.filterMap fun v => match v with | .str .keyword s => some s | _ => none
+          | some (.coll ms) => ms.filterMap fun m => match m.2 with | .str .keyword s => some s | _ => none
+          | _ => []
+        let code := h.opOrStatus.toNat
+        let specText :=
+          if code ≤ 2 then s!"(ok {if !stopped && !(kws.any fun k => blocking.contains k) then 1 else 0})"
+          else s!"(err {identStr (statusOf code).ident})"
+        let modelText := match isPrinterReady h gs with
          | .ok b => s!"(ok {if b then 1 else 0})"
-         | .error s => s!"(err {identStr s.ident})")
+         | .error s => s!"(err {identStr s.ident})"
+        s!"{modelText} ## {specText}"
      | none => "(bad-arg)")
   | "fromstr", [.atom h] =>
     some (match hexToBytes h with
